@@ -55,11 +55,12 @@ type Macro struct {
 }
 
 type TypeSpec struct {
-	Tags    []string
-	Name    string
-	Pkg     string
-	Clauses []*Clause
-	Guarded map[string]string // field -> mutex field
+	Tags        []string
+	Name        string
+	Pkg         string
+	Clauses     []*Clause
+	Guarded     map[string]string // field -> mutex field
+	ClosesUnder map[string]string // channel field -> mutex field
 }
 
 type SpecFile struct {
@@ -758,6 +759,20 @@ func ParseSpecFile(path string, pkg string, requirePrefix bool) (*SpecFile, erro
 				mu := strings.TrimSpace(rest[:i])
 				for _, f := range splitNames(rest[i+1:]) {
 					curType.Guarded[f] = mu
+				}
+				continue
+			case "closes_under":
+				// closes_under mu : ch1, ch2  -- channels in these fields are closed only with mu held
+				i := strings.Index(rest, ":")
+				if curType == nil || i < 0 {
+					return nil, fail(l.no, "bad closes_under")
+				}
+				mu := strings.TrimSpace(rest[:i])
+				if curType.ClosesUnder == nil {
+					curType.ClosesUnder = map[string]string{}
+				}
+				for _, f := range splitNames(rest[i+1:]) {
+					curType.ClosesUnder[f] = mu
 				}
 				continue
 			case "known":
